@@ -14,6 +14,7 @@ Property clause → theorem
       `C20.import_faithful_full`  every prefix ExportGenesis reads is decoded and written back from the same genesis field
       `C20.derived_sourced_full`  every index store InitGenesis rebuilds is rebuilt from records ExportGenesis reads
       `C20.import_total_full`     no InitGenesis loop can silently stop the import
+      `C20.import_accepts_full`   no InitGenesis setter can refuse a record
       `C20.counters_exact_full`   every id counter / length key is restored from a stored genesis value
       `C20.fields_used_full`      every genesis field ExportGenesis fills is looked at by InitGenesis
       These are FALSE of the unchanged tree; each is stated at full strength over the table minus the explicit lists
@@ -205,7 +206,8 @@ theorem table_spot_market : ∃ m ∈ modules, m.name = "market" ∧ m.written =
 /-! ## gaps of the unchanged tree
 
 `item` of a counter is `<prefix>.<restoration rule>`. `kind`: `store` = written by a keeper, neither exported nor rebuilt; `import` = exported but not decoded / not written back from
-the same field; `unsourced` = written by InitGenesis from a genesis field ExportGenesis never fills; `abort` = written in or after an InitGenesis loop that silently returns on a rejected record; `counter` = id
+the same field; `unsourced` = written by InitGenesis from a genesis field ExportGenesis never fills; `abort` = written in or after an InitGenesis loop that silently returns on a rejected record; `reject` = imported through a
+setter that can refuse a record (which is then skipped); `counter` = id
 counter not restored from a stored value; `field` = genesis field filled by export, ignored by import. -/
 
 structure Gap where
@@ -217,12 +219,11 @@ structure Gap where
 
 /-- Reproduced on the real code by `harness/c20_genesis_test.go` (witness and patch per finding id: notes/C20.md). -/
 def knownGaps : List Gap := [
-  -- (G01 net-fee export, G03 auctionsV2 counters, G07 lend-auction import: repaired in the source — 0ab45c0, 2741fd2, a0dfa35)
-  -- G02 collector InitGenesis returns silently at the first lookup record its setter rejects (secondary asset not a genesis
-  --     token of the app — the run-time path accepts that): the rest of the module is not imported
-  ⟨"G02", "abort", "collector", "AddCollectorLookupKey"⟩,
-  ⟨"G02", "abort", "collector", "AppIDToAuctionMappingPrefix"⟩,
-  ⟨"G02", "abort", "collector", "CollectorForDenomKeyPrefix"⟩,
+  -- (G01 net-fee export, G03 auctionsV2 counters, G07 lend-auction import: repaired in the source — 0ab45c0, 2741fd2, a0dfa35; the silent `return` of G02 and the
+  -- never-stored counter of G05: notes/patches/G02.diff, G05.diff)
+  -- G02 (residue after the repair of the silent `return`): the genesis setter SetCollectorLookupTable refuses a lookup record
+  --     whose secondary asset is not a genesis token of the app — the run-time path accepts it — and the record is skipped
+  ⟨"G02", "reject", "collector", "AddCollectorLookupKey"⟩,
   -- G04 auctionsV2 bids, limit bids, their indexes, id counter, histories and statistics are not exported
   ⟨"G04", "store", "auctionsV2", "UserBidKeyPrefix"⟩,
   ⟨"G04", "store", "auctionsV2", "UserLimitBidMappingKeyPrefix"⟩,
@@ -234,10 +235,9 @@ def knownGaps : List Gap := [
   ⟨"G04", "store", "auctionsV2", "UserBidHistoricalKeyPrefix"⟩,
   ⟨"G04", "store", "auctionsV2", "MarketBidProtocolKeyPrefix"⟩,
   ⟨"G04", "store", "auctionsV2", "ExternalAuctionLimitBidFeeKeyPrefix"⟩,
-  -- G05 liquidationsV2: locked-vault id counter computed in InitGenesis but never stored; sweep offset and reserve-fund
-  --     transaction records not exported
-  ⟨"G05", "store", "liquidationsV2", "LockedVaultIDKey"⟩,
-  ⟨"G05", "counter", "liquidationsV2", "LockedVaultIDKey.notRestored"⟩,
+  -- G05 liquidationsV2 (residue after the repair that stores the counter): the locked-vault id counter is the maximum LIVE id;
+  --     sweep offset and reserve-fund transaction records not exported
+  ⟨"G05", "counter", "liquidationsV2", "LockedVaultIDKey.maxId"⟩,
   ⟨"G05", "store", "liquidationsV2", "LiquidationOffsetHolderKeyPrefix"⟩,
   ⟨"G05", "store", "liquidationsV2", "AppReserveFundsTxDataKeyPrefix"⟩,
   -- G06 id counters recomputed from the LIVE records (max / last / count): ids of closed positions are handed out again
@@ -300,13 +300,11 @@ def suspectedGaps : List Gap := [
   ⟨"S02", "counter", "lend", "PoolIDPrefix.lastId"⟩,
   ⟨"S02", "counter", "rewards", "ExtRewardsLendIDKey.maxId"⟩,
   ⟨"S02", "counter", "rewards", "GaugeIDKey.maxId"⟩,
-  -- loops that return silently on a rejected record, before the one that was made to fail (G02) / whose setter only fails for
-  -- an app that does not exist
-  ⟨"S03", "abort", "collector", "NetFeeCollectedDataPrefix"⟩,
-  ⟨"S03", "abort", "collector", "AppIDToAssetCollectorMappingPrefix"⟩,
-  ⟨"S03", "abort", "esm", "KillSwitchDataKey"⟩,
-  ⟨"S03", "abort", "esm", "UserDepositByAppPrefix"⟩,
-  ⟨"S03", "abort", "esm", "ESMDataAfterCoolOffPrefix"⟩]
+  -- setters that can refuse a record, where no refusable record could be produced (a negative fee is never stored, the denoms
+  -- mapping is written again by its own loop, a kill switch only exists for an existing app)
+  ⟨"S03", "reject", "collector", "NetFeeCollectedDataPrefix"⟩,
+  ⟨"S03", "reject", "collector", "CollectorForDenomKeyPrefix"⟩,
+  ⟨"S03", "reject", "esm", "KillSwitchDataKey"⟩]
 
 /-- Stores no query and no reachable transition reads.
 * liquidation/LiquidationOffsetHolderKeyPrefix — cursor of the first-generation sweeps `LiquidateVaults` / `LiquidateBorrows`,
@@ -340,6 +338,9 @@ theorem derived_sourced_full : ∀ g ∈ unsourcedGaps modules, listed "unsource
 
 theorem import_total_full : ∀ g ∈ fragileGaps modules, listed "abort" g = true := by decide
 
+/-- no InitGenesis setter can refuse a record that the run-time paths accept — minus named gaps -/
+theorem import_accepts_full : ∀ g ∈ rejectGaps modules, listed "reject" g = true := by decide
+
 /-- ∀ counter c, restoreRule c = exact — over the table minus the named gaps -/
 theorem counters_exact_full : ∀ g ∈ lossyCounters modules, listed "counter" g = true := by decide
 
@@ -350,6 +351,7 @@ def isGap (g : Gap) : Bool :=
   if g.kind == "store" then (storeGaps modules).contains x
   else if g.kind == "import" then (importGaps modules).contains x
   else if g.kind == "abort" then (fragileGaps modules).contains x
+  else if g.kind == "reject" then (rejectGaps modules).contains x
   else if g.kind == "unsourced" then (unsourcedGaps modules).contains x
   else if g.kind == "counter" then (lossyCounters modules).contains x
   else if g.kind == "field" then (fieldGaps modules).contains x
